@@ -552,6 +552,13 @@ theorem family_naive (is : List Item) (Y : Int) (o : Nat) (hvd : VD Y o) (t : Ti
     (fun hts hs => (hEs hts hfd hft).2 hs) hfmt
   exact ⟨p', h1, by simp only [ParseFrom.resolve, h2, Parsed.RP.bind]⟩
 
+theorem wallInRange_vd (Y : Int) (o : Nat) (hvd : VD Y o) : wallInRange (dateOfYo Y o) = true := by
+  obtain ⟨fy, _, _, _, y1, y2, _⟩ := date_facts Y o hvd
+  have hMIN : MIN_YEAR = -262143 := rfl
+  have hMAX : MAX_YEAR = 262142 := rfl
+  simp only [wallInRange, fy, Bool.and_eq_true, decide_eq_true_eq]
+  omega
+
 theorem rounded_of_whole (off : Int) (h : off % 60 = 0) : roundedOffset off = off := by
   unfold roundedOffset; split <;> omega
 
@@ -640,7 +647,8 @@ theorem family_zoned (is : List Item) (z : Zoned) (Y : Int) (o : Nat) (hvd : VD 
       exact Or.inr ⟨(isSome_false_iff _).mp hoI, (isSome_true_iff _).mp htI, by rw [← hoff', if_neg ho]⟩
   have heast : Zoned.east_opt off' = some off' := by
     unfold Zoned.east_opt; rw [if_pos hr1]
-  simp only [truncate_to_precision, hfd, hft, Bool.and_self, if_true, hl, hoff'] at hv'
+  have hwall : wallInRange (dateOfYo Y o) = true := wallInRange_vd Y o hvd
+  simp only [truncate_to_precision, hfd, hft, Bool.and_self, if_true, hl, hoff', hwall] at hv'
   simp only [ParseFrom.resolve, to_datetime_of p' off' _ hoffsel h2 heast]
   cases hfl : Zoned.from_local_datetime off' ⟨dateOfYo Y o, truncTime is t⟩ with
   | panic => rw [hfl] at hv'; cases hv'
